@@ -638,6 +638,13 @@ func checkDOT(c dotCase) *vk.Failure {
 		if ufffd {
 			key += "-ufffd"
 		}
+		// Recorded finding, identified by the token the lexer chokes on: an HTML
+		// string with an empty nested tag (<<>>, <a<>b>), which formats/dot's
+		// grammar (dot.bnf: _html_tag : '<' { _html_char } '>') allows but the
+		// generated lexer rejects.
+		if strings.Contains(err.Error(), "unknown/invalid token \"<") && strings.Contains(err.Error(), "<>\"") {
+			key += "-html-empty-tag"
+		}
 		return vk.Failf(key, "Unmarshal(Marshal(g)): %v\n%s", err, b1)
 	}
 	got := summarize(g2, c.Directed)
